@@ -1367,7 +1367,11 @@ func (vc *FnVC) doErrorsAs(c *ssa.CallCommon, st *State) []Val {
 // gets `modifies *` plus the property's default `preserves` list; the preserves are not
 // assumed: each such callee gets its own scan obligations in this run (DESIGN.md 4/C10).
 func (vc *FnVC) defaultFrameContract(fn *ssa.Function) *FuncContract {
-	locs := vc.prog.cs.DefaultFrames[vc.prop]
+	locs := append([]string{}, vc.prog.cs.DefaultFrames[vc.prop]...)
+	for _, inc := range vc.prog.cs.PropertyScope[vc.prop] {
+		// a property checked within the scopes of others also uses their default frames
+		locs = append(locs, vc.prog.cs.DefaultFrames[inc]...)
+	}
 	if len(locs) == 0 {
 		return nil
 	}
